@@ -118,6 +118,19 @@ class ClassInfo:
         return out
 
 
+    def dataclass_compared_fields(self) -> List[str]:
+        """Fields that take part in the generated __eq__/__hash__/ordering: all but those declared with field(compare=False)."""
+        out = []
+        for stmt in self.node.body:
+            if isinstance(stmt, ast.AnnAssign) and isinstance(stmt.target, ast.Name):
+                v = stmt.value
+                if isinstance(v, ast.Call) and (getattr(v.func, "id", None) == "field" or getattr(v.func, "attr", None) == "field"):
+                    if any(k.arg == "compare" and isinstance(k.value, ast.Constant) and k.value.value is False for k in v.keywords):
+                        continue
+                out.append(stmt.target.id)
+        return out
+
+
 Resolved = Tuple[str, Any]  # ('class', ClassInfo) | ('func', FuncInfo) | ('const', (Module, ast.AST)) | ('module', str) | ('external', dotted)
 
 
